@@ -84,7 +84,10 @@ def _min_loop_unit(relpath, cls, submod_name, subcls_name, route_key, with_gw, m
             if c.decide(z3.Bool(c.name("gw_model_preexisting")), "gw-pre"):
                 me._given_weights_model = GivenWeightsModel(route_key)
         lb, m = me.lb.t, me.G.m.t
+        old_clock = Sym(c.fresh_const("clock_of_an_earlier_solve", REAL))
+        me.solve_time_start = old_clock if c.decide(z3.Bool(c.name("solved_before")), "second-solve") else None
         r = f(me)
+        c.prove("post:solve-restarts-its-wall-clock(repeated solve() is not charged the time since an earlier solve)", me.solve_time_start is not old_clock and me.solve_time_start is not None, prop="C18")
         if not isinstance(r, bool):
             c.prove("post:returns-a-bool", False, kind="post")
             return
@@ -127,11 +130,13 @@ def _min_loop_unit(relpath, cls, submod_name, subcls_name, route_key, with_gw, m
             c = core.ctx()
             if isinstance(it, SymRange):
                 c.prove("range:search-starts-at-the-lower-bound", lift(it.lo) == me.lb.t, prop=range_prop, kind="pre")
-                c.prove("range:search-reaches-a-sufficient-k(|E|-|V|+2)", lift(it.hi) >= me.G.m.t - me.G.n.t + 3, prop=range_prop, kind="pre")
+                # over the vocabulary the loop bound uses (number of edges, number of nodes) k = |E| is the only bound that always suffices:
+                # a graph made of |E| disjoint edges needs |E| routes (a tighter bound such as |E|-|V|+2 is wrong for several sources/sinks)
+                c.prove("range:search-reaches-k=number-of-edges", lift(it.hi) >= me.G.m.t + 1, prop=range_prop, kind="pre")
             else:
                 c.prove("range:search-range-is-symbolic", False, kind="pre")
         spec["on_entry"] = on_entry2
-    return Unit(relpath, cls + ".solve", h, globs=glob, loops={0: spec}, props=[P] + ([range_prop] if range_prop else []), assumptions=[A_SOLVER],
+    return Unit(relpath, cls + ".solve", h, globs=glob, loops={0: spec}, props=[P, "C18"] + ([range_prop] if range_prop else []), assumptions=[A_SOLVER],
                 callee_contracts=["%s.solve/is_solved/get_solution (AbstractPathModelDAG/AbstractWalkModelDiGraph.solve contract)" % subcls_name,
                                   "SolverWrapper.get_model_status", "set_solved", "get_lowerbound_k (returns an int)"])
 
